@@ -146,7 +146,7 @@ def run(pid, tier, seed, profile, oracle, n_quick, n_thorough, variants=None, le
         if seen[key] <= 3: viol.append(v)
     for i in confirmed[:5]:
         bits = codes[i] & mask
-        parts = [nm for b, nm in ((1, "variables/witness"), (2, "constraints"), (4, "results"), (8, "exception/globals"), (32, "scoping"), (64, "shape")) if bits & b]
+        parts = [nm for b, nm in ((1, "variables/witness"), (2, "constraints"), (4, "results"), (8, "exception/globals"), (32, "scoping"), (64, "shape"), (128, "value identity at emission (vjustb)")) if bits & b]
         case = dict(cfg=cases[i]["cfg"], prog=cases[i]["prog"], ins=cases[i]["ins"])
         def fails(cand):
             r = progs.run_impl_cases([cand])
